@@ -47,7 +47,7 @@ func run(r *ev.Run) {
 	r.Assume("a destination 'acknowledged' a blob when its ReceiveBlob returned nil with the blob's true size and the durable destination below the wrappers accepted it during that call")
 	r.Assume("restart = fail-stop of the incarnation's source, destination and queue wrappers (inject.Freeze), then a new sync handler over the same durable stores and queue KV with fresh wrappers; goroutines of the old incarnation keep running but every lower-layer call they make fails without effect")
 	r.Assume("progress is driven by logical events only: client retries, one filler upload, and a bounded number (3 + planned fault occurrences) of IdleWait returns; IdleWait's 5 s loop interval is waited for, never judged; a 90 s watchdog on IdleWait only yields inconclusive")
-	r.Assume("bounded progress of the copy loop: while a blob is durably queued, absent from the destination, and the destination answers a stat, the loop must not be in a closed wait cycle = at 3 successive polls the handler has issued the same lower-layer calls (none open) and a goroutine dump shows its loop goroutine parked in a plain channel operation inside runSync and every live goroutine that goroutine ever created parked in a plain channel operation with a perkeep frame on top, or in the hand-over select of one of the three enumerator functions, whose cases are the send on runSync's channel and runSync's interrupt channel (then 5 polls, spanning more than the loop's 5 s timer); runSync's channels are local, so nobody else can complete these operations; anything else that delays IdleWait is inconclusive")
+	r.Assume("bounded progress of the copy loop: while a blob is durably queued, absent from the destination, and the destination answers a stat, the loop must not be in a closed wait cycle = at 3 successive polls the handler has issued the same lower-layer calls (none open) and a goroutine dump shows its loop goroutine parked in a plain channel operation inside runSync and every live goroutine that goroutine ever created parked in a plain channel operation with a frame of perkeep's packages server or blobserver on top, or in the hand-over select of one of the three enumerator functions, whose cases are the send on runSync's channel and runSync's interrupt channel (then 5 polls, spanning more than the loop's 5 s timer); runSync's channels are local, so nobody else can complete these operations; anything else that delays IdleWait is inconclusive")
 	r.Assume("start-up recovery (validateOnStart, fullSyncOnStart): blobs that are in the source when the handler starts, without a queue row, are expected at the destination too (the status page documents the validation as ensuring 'that the destination has everything the source does, or is at least enqueued to sync'); validation is waited for through the handler's status page (shards processed = total); blockingFullSyncOnStart and hourlyCompareBytes are not exercised")
 	r.Assume("family 'server': handlers built by serverinit.Load(high-level config)+InstallHandlers in a child process and driven through their HTTP handlers (PUT at the discovered blob root = cond -> replica|/bs/); 'nothing left to copy' is read from the status handler (blobsToCopy of every sync handler = 0) after all uploads were acknowledged; delivered = the index prefix stats the blob with its true size")
 	r.Assume("schedule control by gates and a 300 ms settle (destination held until the copy workers are all inside it) only shapes the interleaving; it is never judged")
@@ -122,6 +122,7 @@ func run(r *ev.Run) {
 		r.Count("pre_populated_source_blobs", o.PrePopulated)
 		r.Count("queue_file_reopens", o.QueueReopens)
 		r.Count("probe_uploads_while_not_idle", o.ProbeUploads)
+		r.Count("deliveries_verified_at_second_handler", o.TwinDeliveries)
 		r.Count("validation_shards_processed", o.ValidationShards)
 		if o.MaxPending > int(r.Counter("max_rows_pending_at_a_start")) {
 			r.Count("max_rows_pending_at_a_start", o.MaxPending-int(r.Counter("max_rows_pending_at_a_start")))
@@ -163,7 +164,7 @@ func run(r *ev.Run) {
 			r.Note("startup_recovery", sc.Kind)
 		}
 		delivered := len(o.Faults) > 0 || len(o.RestartAt) > 0 || len(o.Schedules) > 0 ||
-			sc.Family == "pool" || sc.Family == "size-boundary" || sc.Family == "startup-recovery"
+			sc.Family == "pool" || sc.Family == "size-boundary" || sc.Family == "startup-recovery" || sc.Family == "twin"
 		for _, f := range uniq(o.Faults) {
 			r.Note("fault_kinds", f)
 			r.Note("fault_kinds_by_dest", f+"@"+sc.Dest)
@@ -242,13 +243,13 @@ func run(r *ev.Run) {
 	r.Require("schedules", "reupload-during-dst.ReceiveBlob", "reupload-during-queue.Delete", "reupload-during-src.Fetch",
 		"destination-held-until-workers-busy", "destination-silent-until-crash")
 	r.Require("family_judged", "fault", "restart", "restart-outage", "double-restart", "multi", "designed", "race",
-		"pool", "size-boundary", "backlog", "file-queue", "startup-recovery", "server")
+		"pool", "size-boundary", "backlog", "file-queue", "startup-recovery", "server", "twin")
 	r.Require("server_config", wiringConfigs(r.Thorough())...)
 	r.Require("copier_pool_size", "1", "2")
 	r.Require("blob_size", "0", "1", fmt.Sprint(maxBlobSize-1), fmt.Sprint(maxBlobSize))
 	r.Require("backlog", "more-than-one-batch-pending-at-start")
 	r.Require("queue_backend_reopened", "leveldb")
-	r.Require("startup_recovery", "validate-on-start", "full-sync-on-start")
+	r.Require("startup_recovery", "validate-on-start", "full-sync-on-start", "full-sync-over-one-batch")
 	if r.Thorough() {
 		r.Require("queue_backend_reopened", "kv", "sqlite")
 		r.Require("copier_pool_size", "3", "4", "5", "8")
